@@ -14,3 +14,9 @@ if [ ! -x .venv/bin/python ] || ! .venv/bin/python -c "import z3, cvc5" 2>/dev/n
 fi
 .venv/bin/python -c "import z3, cvc5, numpy; print('venv ok', z3.get_version_string())"
 mkdir -p .build evidence replays
+# /repo/optree/_C*.so is an untracked build product (editable install) that goes stale when the C++
+# sources change (e.g. by the `fix:` commits). Refresh it from the current sources so that the
+# repository's own test-suite exercises the code that is in the tree. The checks never use it.
+D=$(.venv/bin/python -m ocv.build)
+if [ -w /repo/optree ]; then cp "$D/optree/_C.cpython-312-x86_64-linux-gnu.so" /repo/optree/ || true; fi
+echo "setup done"
